@@ -205,6 +205,7 @@ func cmdRun(args []string) int {
 	workers := fs.Int("j", 16, "workers")
 	noEvidence := fs.Bool("no-evidence", false, "do not write the evidence file")
 	trace := fs.Bool("trace", false, "dump solver scripts to stderr")
+	budget := fs.Int("budget", 0, "wall-clock budget in seconds after which unexplored paths are reported as inconclusive (default: quick 1500, thorough 10800)")
 	var prop string
 	if len(args) > 0 && !strings.HasPrefix(args[0], "-") {
 		prop = args[0]
@@ -347,6 +348,14 @@ func cmdRun(args []string) int {
 		results[i] = jobResult{job: jobs[i], out: &interp.Outcome{Stats: interp.NewPathStats()}}
 	}
 	nw := *workers
+	budgetS := *budget
+	if budgetS == 0 {
+		budgetS = 1500
+		if *tier == "thorough" {
+			budgetS = 10800
+		}
+	}
+	deadline := time.Now().Add(time.Duration(budgetS) * time.Second)
 	var wg sync.WaitGroup
 	doneCh := make(chan struct{})
 	if *verbose {
@@ -412,6 +421,13 @@ func cmdRun(args []string) int {
 					if !r.capped {
 						r.capped = true
 						r.out.Inconclusive = append(r.out.Inconclusive, fmt.Sprintf("path limit %d reached", maxp))
+					}
+				}
+				if !skip && time.Now().After(deadline) {
+					skip = true
+					if !r.capped {
+						r.capped = true
+						r.out.Inconclusive = append(r.out.Inconclusive, fmt.Sprintf("wall-clock budget of %d s exhausted after %d paths: the remaining paths were not explored", budgetS, r.out.Paths))
 					}
 				}
 				mu.Unlock()
